@@ -1,5 +1,5 @@
 import SaVerif.Lemmas.ExecOnce
-import SaVerif.Model.Event
+import SaVerif.Lemmas.EventOps2
 /-!
 # C28 — Event listeners fire exactly as registered
 
@@ -167,6 +167,193 @@ example :
     (run (init 3) [.listen (.cls 0) 0 false 0, .listen (.cls 0) 1 true 0, .subclass 0, .subclass 1,
                    .listen (.cls 1) 2 false 0, .newinst 2, .fire 0, .remove (.cls 0) 0, .fire 0]).2
       = [.done, .done, .done, .done, .done, .done, .calls [1, 0, 2], .done, .calls [1, 2]] := by decide
+
+/-! ## dispatch_eq_spec
+
+The spec reads the registry of live keys (`st.reg`, chronological) and the class tree:
+`specDeque st k` = live registrations on class `k` and its ancestors, inserted ones first
+(newest first), then the appended ones in registration order; `specColl st i` = the same
+rule for the registrations on instance `i`.
+
+Full statement wanted: for EVERY op sequence, `fire i` calls exactly
+`specDeque st (class of i) ++ specColl st i`.  It is false (`double_listen_counterexample`,
+`related_classes_order_counterexample` above).  What holds, for every op sequence over a
+class tree that grows at any time (`subclass`), instances created at any time, insert /
+once / named options, removals, is the statement below under `RunOk`:
+a class-level `listen` (a) does not repeat a live key and (b), when it registers the bare
+function (no once/named wrapper), that function object is not currently listening on any
+class.  Each of the two counterexamples violates exactly one of (a), (b). -/
+
+/-- side condition on one operation in state `st` -/
+def OpOk (n : Nat) (st : St) : Op → Prop
+  | .listen (.cls c) fn _ wrap =>
+    fn < n ∧ hasKey st (.cls c) fn = false ∧ (wrap = 0 → ∀ x ∈ clsEntries st, x.lsn ≠ fn)
+  | .listen (.inst _) fn _ _ => fn < n
+  | _ => True
+
+def RunOk (n : Nat) : St → List Op → Prop
+  | _, [] => True
+  | st, op :: ops => OpOk n st op ∧ RunOk n (exec st op).1 ops
+
+theorem einv_init (n : Nat) : EInv n (Event.init n) := by
+  have hpar : ∀ k, parentOf (Event.init n) k = none := by
+    intro k
+    unfold parentOf Event.init
+    cases k <;> simp
+  have hdq : ∀ k, dequeOf (Event.init n) k = none := by
+    intro k
+    unfold dequeOf Event.init
+    cases k <;> simp
+  refine ⟨⟨?_, rfl, ?_, ?_⟩, ?_, ?_, ?_, ?_, ?_, ?_, ?_, ?_, ?_⟩
+  · intro k p hp; rw [hpar] at hp; cases hp
+  · intro k d hd; rw [hdq] at hd; cases hd
+  · intro e he; simp [Event.init] at he
+  · simp [clsEntries, Event.init]
+  · intro i; simp [instEntries, Event.init]
+  · intro e he; simp [Event.init] at he
+  · intro e he; simp [Event.init] at he
+  · intro e he; simp [Event.init] at he
+  · simp [Event.init]
+  · intro i; simp [collOf, specColl, instEntries, Event.init, orderOf]
+  · intro i x hx; simp [Event.init] at hx
+  · intro e he; simp [Event.init] at he
+
+theorem einv_exec (n : Nat) (st : St) (op : Op) (h : EInv n st) (hok : OpOk n st op) :
+    EInv n (exec st op).1 := by
+  cases op with
+  | listen t fn ins wrap =>
+    cases t with
+    | cls c =>
+      obtain ⟨h1, h2, h3⟩ := hok
+      simp only [exec]
+      split
+      · rename_i hc; exact listenCls_inv h c fn ins wrap hc h1 h2 h3
+      · exact h
+    | inst i =>
+      simp only [exec]
+      split
+      · rename_i hi; exact listenInst_inv h i fn ins wrap hi hok
+      · exact h
+  | remove t fn =>
+    simp only [exec]
+    split
+    · exact h
+    · rename_i e hf
+      cases t with
+      | cls c =>
+        simp only
+        exact (removeCls_inv h c fn e hf).1
+      | inst i =>
+        simp only
+        have := removeInst_inv h i fn e hf
+        rw [if_pos this.1]
+        exact this.2
+  | subclass p =>
+    simp only [exec]
+    split
+    · rename_i hp; exact subclass_inv h p hp
+    · exact h
+  | newinst c =>
+    simp only [exec]
+    split
+    · rename_i hc; exact newinst_inv h c hc
+    · exact h
+  | fire i =>
+    simp only [exec]
+    split
+    · exact h
+    · exact h.core (callAll_core _ st)
+
+theorem einv_run (n : Nat) : ∀ (ops : List Op) (st : St), EInv n st → RunOk n st ops →
+    EInv n (Event.run st ops).1 := by
+  intro ops
+  induction ops with
+  | nil => intro st h _; simpa [Event.run] using h
+  | cons op ops ih =>
+    intro st h hok
+    have : (Event.run st (op :: ops)).1 = (Event.run (exec st op).1 ops).1 := by simp [Event.run]
+    rw [this]
+    exact ih _ (einv_exec n st op h hok.1) hok.2
+
+/-- **dispatch_eq_spec_partial**: after any admissible op sequence, for every instance the
+    listeners that a dispatch walks through -- the class-level deque of its class followed by
+    its own collection -- are exactly the spec lists. -/
+theorem dispatch_eq_spec_partial (n : Nat) (ops : List Op) (hok : RunOk n (Event.init n) ops)
+    (i : Nat) (x : Inst) (hx : (Event.run (Event.init n) ops).1.insts[i]? = some x) :
+    (dequeOf (Event.run (Event.init n) ops).1 x.cls).getD [] ++ x.coll.getD [] =
+      specDeque (Event.run (Event.init n) ops).1 x.cls ++ specColl (Event.run (Event.init n) ops).1 i := by
+  have h := einv_run n ops _ (einv_init n) hok
+  generalize (Event.run (Event.init n) ops).1 = st at *
+  have h1 := h.instCls i x hx
+  cases hd : dequeOf st x.cls with
+  | none => rw [hd] at h1; cases h1
+  | some d =>
+    have h2 := h.inst i
+    unfold collOf at h2
+    rw [hx] at h2
+    simp only at h2
+    rw [h.base.deq x.cls d hd, ← h2]
+    rfl
+
+/-- ... hence `fire i` reports exactly the calls of the spec lists (once-wrappers that
+    already fired excluded, as for any list) -/
+theorem fire_eq_spec (n : Nat) (ops : List Op) (hok : RunOk n (Event.init n) ops)
+    (i : Nat) (x : Inst) (hx : (Event.run (Event.init n) ops).1.insts[i]? = some x) :
+    (exec (Event.run (Event.init n) ops).1 (.fire i)).2 =
+      .calls (callAll (Event.run (Event.init n) ops).1
+        (specDeque (Event.run (Event.init n) ops).1 x.cls ++
+         specColl (Event.run (Event.init n) ops).1 i)).2 := by
+  have := dispatch_eq_spec_partial n ops hok i x hx
+  simp only [exec, hx]
+  rw [this]
+
+/-- in an admissible run `remove` of a live key never fails and a dead key is reported -/
+theorem remove_ok (n : Nat) (ops : List Op) (hok : RunOk n (Event.init n) ops) (t : Target) (fn : Nat) :
+    (exec (Event.run (Event.init n) ops).1 (.remove t fn)).2 =
+      if hasKey (Event.run (Event.init n) ops).1 t fn then .done else .noSuchListener := by
+  have h := einv_run n ops _ (einv_init n) hok
+  generalize (Event.run (Event.init n) ops).1 = st at *
+  simp only [exec]
+  cases hf : findKey st t fn with
+  | none =>
+    have : hasKey st t fn = false := by
+      cases hk : hasKey st t fn with
+      | false => rfl
+      | true =>
+        rw [hasKey_iff] at hk
+        obtain ⟨e, he, h1, h2⟩ := hk
+        unfold findKey at hf
+        rw [List.find?_eq_none] at hf
+        have := hf e he
+        simp [h1, h2] at this
+    simp [this]
+  | some e =>
+    obtain ⟨her, het, hef⟩ := findKey_some hf
+    have hk : hasKey st t fn = true := by rw [hasKey_iff]; exact ⟨e, her, het, hef⟩
+    cases t with
+    | cls c => simp only [hk, if_true]; rw [(removeCls_inv h c fn e hf).2]; rfl
+    | inst i => simp only [hk, if_true]; rw [if_pos (removeInst_inv h i fn e hf).1]
+
+/-- non-vacuity of `RunOk`: a run with a class created late, insert, once, an instance
+    listener, a removal -/
+example : RunOk 3 (Event.init 3)
+    [.listen (.cls 0) 0 false 0, .listen (.cls 0) 1 true 1, .subclass 0, .subclass 1,
+     .listen (.cls 1) 2 false 0, .newinst 2, .listen (.inst 0) 0 true 2, .fire 0,
+     .remove (.cls 0) 0, .fire 0] := by
+  simp only [RunOk, OpOk]
+  decide
+
+/-- the two counterexample sequences are exactly the ones `RunOk` excludes -/
+example : ¬ RunOk 1 (Event.init 1)
+    [.newinst 0, .listen (.cls 0) 0 false 0, .listen (.cls 0) 0 false 0, .fire 0] := by
+  simp only [RunOk, OpOk]
+  decide
+
+example : ¬ RunOk 2 (Event.init 2)
+    [.subclass 0, .newinst 1, .listen (.cls 0) 0 false 0, .listen (.cls 0) 1 false 0,
+     .listen (.cls 1) 0 false 0, .fire 0] := by
+  simp only [RunOk, OpOk]
+  decide
 
 end registry
 
